@@ -4,7 +4,7 @@
    from the decoder); [dec_ok_expected] is the theorem, for every type descriptor, every
    parameter record and every byte string. *)
 From Coq Require Import List ZArith Lia Bool ZifyBool.
-From Verif Require Import Common.Outcome Common.Bytes Common.BytesLemmas Ber.Model Ber.DecEq Ber.Safety.
+From Verif Require Import Common.Outcome Common.Bytes Common.BytesLemmas Ber.Model Ber.DecEq Ber.Safety Ber.X690 Ber.ParseHdr.
 Import ListNotations.
 Open Scope Z_scope.
 
@@ -198,4 +198,43 @@ Proof.
   intros Hb Hpar He. destruct (dec_safe t p bs Hb) as [Hp Hf].
   destruct (dec t p bs) as [v| | |] eqn:D; try reflexivity; try contradiction.
   rewrite (dec_ok_expected t p bs v tl off D Hpar) in He. discriminate He.
+Qed.
+
+(* ---- truncated input: a header that cannot be read, or a declared length that runs past the
+   end of the data, is an error whatever the type (the general form of [dec_overlong]: any
+   header form, any tag number) ---- *)
+Lemma dec_header_error t p bs :
+  match t with TPtr _ => False | _ => True end -> parse_tl bs = Err -> dec t p bs = Err.
+Proof.
+  intros Hp E. rewrite dec_unfold. destruct t; try contradiction; cbn [dec_step]; rewrite E; reflexivity.
+Qed.
+
+Lemma dec_length_past_end t p bs tl off :
+  match t with TPtr _ => False | _ => True end ->
+  parse_tl bs = Ok (tl, off) -> off + t_len tl > zlen bs -> dec t p bs = Err.
+Proof.
+  intros Hp E Hgt. rewrite dec_unfold.
+  destruct t; try contradiction; cbn [dec_step]; rewrite E; cbn [bind];
+    replace (off + t_len tl >? zlen bs) with true by lia; reflexivity.
+Qed.
+
+(* through any chain of pointers *)
+Lemma dec_truncated : forall t p bs,
+  (parse_tl bs = Err \/ exists tl off, parse_tl bs = Ok (tl, off) /\ off + t_len tl > zlen bs) ->
+  dec t p bs = Err.
+Proof.
+  induction t using ty_ind'; intros p bs Htr;
+    try (destruct Htr as [Htr|[tl [off [H1 H2]]]];
+         [apply dec_header_error; [exact I | exact Htr] | eapply dec_length_past_end; [exact I | exact H1 | exact H2]]).
+  rewrite dec_unfold. cbn [dec_step]. rewrite (IHt p bs Htr). reflexivity.
+Qed.
+
+(* a value cut off inside its contents: any header form, any tag number, any target type *)
+Lemma dec_cut_content t p c k tn len content :
+  cls_ok c -> 0 <= tn < 2 ^ 63 -> 0 <= len < 2 ^ 32 -> zlen content < len ->
+  dec t p (hdr c k tn len ++ content) = Err.
+Proof.
+  intros Hc Ht Hl Hcut. apply dec_truncated. right.
+  exists (mkTal c k tn len), (zlen (hdr c k tn len)). split; [apply parse_hdr; assumption|].
+  cbn [t_len]. rewrite zlen_app. lia.
 Qed.
